@@ -80,6 +80,8 @@ static void stun_summary (const guint8 *d, gsize n, char *o)
 }
 
 static void net_send (const NiceAddress *from, const NiceAddress *to, const guint8 *d, gsize n);
+static gboolean is_atk_addr (const NiceAddress *a);
+typedef struct { NiceAddress from, to; guint8 d[1500]; gsize n; } ReqLog; static ReqLog reqlog[16]; static int reqlog_n;
 
 static gint vs_recv (NiceSocket *sock, NiceInputMessage *msgs, guint n)
 {
@@ -141,6 +143,8 @@ static void net_send (const NiceAddress *from, const NiceAddress *to, const guin
   char k[200], k2[200], sum[400], fa[80], ta[80]; pair_key (from, to, k, 0); pair_key (from, to, k2, 1); addr_s (from, fa); addr_s (to, ta);
   stun_summary (d, n, sum);
   const char *fate = "ok"; int copies = 1;
+  if (is_atk_addr (to)) { if (trace_pkts) T ("pkt %s %s toatk %s", fa, ta, sum); return; }   /* answers to the attacker: off the modelled network, no PRNG use */
+  if (!strncmp (sum, "stun c0", 7) && n <= 1500) { ReqLog *r = &reqlog[reqlog_n++ % 16]; r->from = *from; r->to = *to; memcpy (r->d, d, n); r->n = n; }
   if (g_hash_table_contains (blackhole, k) || g_hash_table_contains (blackhole, k2)) { fate = "blackhole"; copies = 0; }
   else if (!is_server (to) && !is_server (from)) {
     /* Loss is decided per check ATTEMPT (one transmission of a binding request together with its response), per candidate pair and
@@ -228,6 +232,7 @@ static void digest (int i)
 
 /* ------------------------------------------------------------------ main loop in virtual time */
 static int spinning;
+static gint64 atk_period_us, atk_next_us; static void atk_fire (void);
 /* every dispatch advances the virtual clock by one microsecond (as real time would at the very least), so that code
  * comparing "now" with a deadline it just computed cannot be fooled by a frozen clock */
 static void pump (void) { int guard = 0; while (!spinning && g_main_context_iteration (ctx, FALSE)) { dispatch_count++; vnow_us++; if (++guard > 200000) { spinning = 1; T ("SPIN dispatches=%d without the main loop going back to sleep", guard); } } }
@@ -237,7 +242,8 @@ static void run_for (long ms)
   while (guard++ < 2000000 && !spinning) {
     pump ();
     if (deliver_due ()) continue;
-    gint64 nxt = next_pkt_due ();
+    if (vnow_us >= atk_next_us) { atk_next_us += atk_period_us; atk_fire (); continue; }
+    gint64 nxt = next_pkt_due (); if (atk_next_us < nxt) nxt = atk_next_us;
     gint timeout = -1; gint prio; GPollFD fds[64];
     if (g_main_context_acquire (ctx)) { g_main_context_prepare (ctx, &prio); g_main_context_query (ctx, prio, &timeout, fds, 64); g_main_context_release (ctx); }
     if (timeout == 0) { continue; }
@@ -320,6 +326,76 @@ static void copy_cands (int from, int to, guint s, guint c, int which)
   int r = nice_agent_set_remote_candidates (A[to].agent, s, c, sel); T ("api %d set_remote_candidates %u %u n=%u =%d", to, s, c, g_slist_length (sel), r);
   g_slist_free (sel); g_slist_free_full (l, (GDestroyNotify) nice_candidate_free); }
 
+
+/* ------------------------------------------------------------------ attacker (C03): knows every username, sees every transaction id
+ * on the wire, can spoof any source address -- but does not know any ICE password.  Its own addresses are 10.66.x.x. */
+static guint64 atk_s = 1; static unsigned atk_mask = ~0u;
+static guint32 arnd (void) { atk_s ^= atk_s << 13; atk_s ^= atk_s >> 7; atk_s ^= atk_s << 17; return (guint32) (atk_s >> 16); }
+static gboolean is_atk_addr (const NiceAddress *a) { char ip[64]; nice_address_to_string (a, ip); return !strncmp (ip, "10.66.", 6); }
+static void atk_put (const char *kind, const NiceAddress *f, const NiceAddress *t, const guint8 *d, gsize n)
+{
+  char fa[80], ta[80], sum[400]; addr_s (f, fa); addr_s (t, ta); stun_summary (d, n, sum); T ("atk %s %s %s %s", kind, fa, ta, sum);
+  VPkt *p = g_new0 (VPkt, 1); p->from = *f; p->to = *t; p->data = g_memdup2 (d, n ? n : 1); p->len = n; p->serial = pkt_serial++; p->due_us = vnow_us + 500;
+  inflight = g_list_append (inflight, p);
+}
+/* which agent / stream owns the local transport address a; fills the username an inbound check to it must carry */
+static int atk_owner (const NiceAddress *a, char *uname, guint *comp)
+{
+  for (int i = 0; i < nagents; i++) { NiceAgent *ag = A[i].agent; if (!ag) continue; int found = -1;
+    agent_lock (ag);
+    for (GSList *l = ag->streams; l && found < 0; l = l->next) { NiceStream *st = l->data;
+      for (GSList *c = st->components; c && found < 0; c = c->next) { NiceComponent *cm = c->data;
+        for (GSList *k = cm->local_candidates; k; k = k->next) { NiceCandidate *lc = k->data;
+          if (nice_address_equal (&lc->base_addr, a)) { const char *ru = st->remote_ufrag;
+            if (!ru[0]) for (int j = 0; j < nagents; j++) if (j != i && A[j].agent && A[j].agent->streams) ru = ((NiceStream *) A[j].agent->streams->data)->local_ufrag;
+            sprintf (uname, "%s:%s", st->local_ufrag, ru[0] ? ru : "zzzz"); *comp = cm->id; found = i; break; } } } }
+    agent_unlock (ag);
+    if (found >= 0) return found; }
+  return -1;
+}
+static const uint16_t atk_known[] = { 0x0006, 0x0008, 0x0020, 0x0024, 0x0025, 0x8029, 0x802a, 0x0009, 0 };
+static void atk_fire (void)
+{
+  static const char *names[] = { "rand", "rtp", "req-nomi", "req-wrongkey", "req-truncmi", "resp-forged", "err487-forged", "err403-forged", "indication", "req-conflict" };
+  guint live = 0; for (guint i = 0; i < vsocks->len; i++) { VSock *v = vsocks->pdata[i]; if (!v->closed) live++; }
+  if (!live) return;
+  int kind; int guard = 0; do kind = arnd () % 10; while (!(atk_mask & (1u << kind)) && ++guard < 100);
+  VSock *tv = NULL; guint pick = arnd () % live; for (guint i = 0; i < vsocks->len; i++) { VSock *v = vsocks->pdata[i]; if (!v->closed && pick-- == 0) tv = v; }
+  NiceAddress to = tv->nsock->addr, me; nice_address_init (&me); nice_address_set_from_string (&me, "10.66.0.1"); nice_address_set_port (&me, 6000 + arnd () % 4);
+  guint8 buf[1500]; gsize n = 0; char uname[600] = "a:b"; guint comp = 1; int owner = atk_owner (&to, uname, &comp);
+  NiceAddress from = me;
+  if (kind >= 2 && kind != 5 && kind != 6 && kind != 7 && arnd () % 10 < 3) {   /* spoof one of the peer's addresses */
+    for (guint i = 0; i < vsocks->len; i++) { VSock *v = vsocks->pdata[(i + arnd ()) % vsocks->len]; char u2[600]; guint c2; if (!v->closed && atk_owner (&v->nsock->addr, u2, &c2) != owner) { from = v->nsock->addr; break; } } }
+  StunAgent sa; StunMessage m; stun_agent_init (&sa, atk_known, STUN_COMPATIBILITY_RFC5389, STUN_AGENT_USAGE_SHORT_TERM_CREDENTIALS | STUN_AGENT_USAGE_USE_FINGERPRINT);
+  const uint8_t *wrong = (const uint8_t *) "not-the-ice-password-1"; size_t wl = 22;
+  switch (kind) {
+    case 0: n = 1 + arnd () % 120; for (gsize i = 0; i < n; i++) buf[i] = arnd (); break;
+    case 1: n = 12 + arnd () % 200; for (gsize i = 0; i < n; i++) buf[i] = arnd (); buf[0] = 0x80; buf[1] = 96 + arnd () % 20; break;
+    case 2: n = stun_usage_ice_conncheck_create (&sa, &m, buf, sizeof buf, (uint8_t *) uname, strlen (uname), NULL, 0, arnd () & 1, arnd () & 1, 0x7e0000ff, ~0ULL - arnd () % 3, NULL, STUN_USAGE_ICE_COMPATIBILITY_RFC5245); break;
+    case 3: n = stun_usage_ice_conncheck_create (&sa, &m, buf, sizeof buf, (uint8_t *) uname, strlen (uname), wrong, wl, TRUE, TRUE, 0x7e0000ff, ~0ULL, NULL, STUN_USAGE_ICE_COMPATIBILITY_RFC5245); break;
+    case 9: n = stun_usage_ice_conncheck_create (&sa, &m, buf, sizeof buf, (uint8_t *) uname, strlen (uname), (arnd () & 1) ? wrong : NULL, wl, FALSE, FALSE, 0x7e0000ff, arnd () % 2, NULL, STUN_USAGE_ICE_COMPATIBILITY_RFC5245); break;
+    case 4: { guint8 junk[64]; for (int i = 0; i < 64; i++) junk[i] = arnd (); static const int lens[] = { 0, 1, 10, 19, 21, 24, 32 };
+      stun_agent_init_request (&sa, &m, buf, sizeof buf, STUN_BINDING); stun_message_append32 (&m, STUN_ATTRIBUTE_PRIORITY, 0x7e0000ff); stun_message_append_flag (&m, STUN_ATTRIBUTE_USE_CANDIDATE);
+      stun_message_append64 (&m, STUN_ATTRIBUTE_ICE_CONTROLLING, ~0ULL); stun_message_append_bytes (&m, STUN_ATTRIBUTE_USERNAME, uname, strlen (uname));
+      stun_message_append_bytes (&m, STUN_ATTRIBUTE_MESSAGE_INTEGRITY, junk, lens[arnd () % 7]); n = stun_agent_finish_message (&sa, &m, NULL, 0); break; }
+    case 8: stun_agent_init_indication (&sa, &m, buf, sizeof buf, STUN_BINDING); if (arnd () & 1) stun_message_append_bytes (&m, STUN_ATTRIBUTE_USERNAME, uname, strlen (uname)); n = stun_agent_finish_message (&sa, &m, NULL, 0); break;
+    case 5: case 6: case 7: {
+      if (!reqlog_n) return;
+      ReqLog *r = &reqlog[arnd () % (reqlog_n < 16 ? reqlog_n : 16)]; StunAgent pa; StunMessage req; guint8 rq[1500]; memcpy (rq, r->d, r->n);
+      stun_agent_init (&pa, atk_known, STUN_COMPATIBILITY_RFC5389, STUN_AGENT_USAGE_USE_FINGERPRINT | STUN_AGENT_USAGE_IGNORE_CREDENTIALS);
+      if (stun_agent_validate (&pa, &req, rq, r->n, NULL, NULL) != STUN_VALIDATION_SUCCESS) return;
+      if (kind == 5) { if (!stun_agent_init_response (&pa, &m, buf, sizeof buf, &req)) return;
+        union { struct sockaddr_storage ss; struct sockaddr sa; } u; if (arnd () & 1) nice_address_copy_to_sockaddr (&r->from, &u.sa); else nice_address_copy_to_sockaddr (&me, &u.sa);
+        stun_message_append_xor_addr (&m, STUN_ATTRIBUTE_XOR_MAPPED_ADDRESS, &u.ss, sizeof u.ss); }
+      else if (!stun_agent_init_error (&pa, &m, buf, sizeof buf, &req, kind == 6 ? STUN_ERROR_ROLE_CONFLICT : 403)) return;
+      int mi = arnd () % 3;   /* none / wrong key / junk of wrong length */
+      if (mi == 2) { guint8 junk[20]; for (int i = 0; i < 20; i++) junk[i] = arnd (); stun_message_append_bytes (&m, STUN_ATTRIBUTE_MESSAGE_INTEGRITY, junk, 20); }
+      n = stun_agent_finish_message (&pa, &m, mi == 1 ? wrong : NULL, mi == 1 ? wl : 0);
+      from = r->to; to = r->from; break; }
+  }
+  if (n) atk_put (names[kind], &from, &to, buf, n);
+}
+
 static void do_op (char *op)
 {
   char *a[12]; int n = 0; char *sv; for (char *t = strtok_r (op, ",", &sv); t && n < 12; t = strtok_r (NULL, ",", &sv)) a[n++] = t;
@@ -365,6 +441,7 @@ static void do_op (char *op)
     if (l && r) ok = nice_agent_set_selected_pair (A[I (1)].agent, I (2), I (3), ((NiceCandidate *) l->data)->foundation, ((NiceCandidate *) r->data)->foundation);
     T ("api %d set_selected_pair %d %d =%d", I (1), I (2), I (3), ok); g_slist_free_full (l, (GDestroyNotify) nice_candidate_free); g_slist_free_full (r, (GDestroyNotify) nice_candidate_free); }
   else if (!strcmp (a[0], "inject")) { /* inject,fromip,fromport,toip,toport,hex : attacker datagram */ NiceAddress f = mkaddr (a[1], I (2)), t = mkaddr (a[3], I (4)); size_t l; unsigned char *b = hc_unhex (a[5], &l); net_send (&f, &t, b, l); free (b); }
+  else if (!strcmp (a[0], "attacker")) { /* attacker,period_ms(0=off),kind mask */ atk_period_us = I (1) * 1000LL; atk_next_us = atk_period_us ? vnow_us + atk_period_us : G_MAXINT64; atk_mask = n > 2 ? (unsigned) atoi (a[2]) : ~0u; atk_s = rng_s * 0x2545F4914F6CDD1DULL | 1; }
   else if (!strcmp (a[0], "digest")) { for (int i = 0; i < nagents; i++) digest (i); }
   else if (!strcmp (a[0], "state")) { guint st = nice_agent_get_component_state (A[I (1)].agent, I (2), I (3)); T ("api %d get_state %d %d =%s", I (1), I (2), I (3), stname (st)); }
   else if (!strcmp (a[0], "selected")) { NiceCandidate *l = NULL, *r = NULL; gboolean ok = nice_agent_get_selected_pair (A[I (1)].agent, I (2), I (3), &l, &r); char x[80] = "-", y[80] = "-"; if (ok) { addr_s (&l->addr, x); addr_s (&r->addr, y); } T ("api %d get_selected_pair %d %d =%d %s %s", I (1), I (2), I (3), ok, x, y); }
@@ -379,13 +456,14 @@ int main (void)
 {
   static char line[1 << 20];
   hc_init (); hc_catch_abort ();
-  g_setenv ("G_MESSAGES_DEBUG", "", TRUE);
+  if (!getenv ("SIM_DEBUG")) g_setenv ("G_MESSAGES_DEBUG", "", TRUE); else { g_setenv ("G_MESSAGES_DEBUG", "libnice", TRUE); nice_debug_enable (FALSE); }
   while (fgets (line, sizeof line, stdin)) {
     char *sv, *id = strtok_r (line, " \n", &sv); if (!id) continue;
     /* fresh world */
     ctx = g_main_context_new (); vsocks = g_ptr_array_new (); inflight = NULL; pkt_serial = 0; next_port = 40000; nagents = 0; nservers = 0; memset (A, 0, sizeof A);
     consec = g_hash_table_new_full (g_str_hash, g_str_equal, g_free, NULL); resp_tokens = g_hash_table_new_full (g_str_hash, g_str_equal, g_free, NULL); blackhole = g_hash_table_new_full (g_str_hash, g_str_equal, g_free, NULL);
     for (int i = 0; i < n_vif; i++) g_free (vif[i]); n_vif = 0;
+    atk_period_us = 0; atk_next_us = G_MAXINT64; reqlog_n = 0;
     p_drop = p_dup = 0; d_min_us = d_max_us = 1000; max_consec_loss = 2; vnow_us = 1000000000LL; dispatch_count = 0; trace_pkts = 1; spinning = 0;
     fprintf (hc_out, "%s", id);
     char *op; int aborted = 0;
